@@ -149,7 +149,7 @@ PROPERTIES = {
         assumptions=[CONC],
     ),
     'C09': dict(
-        units=['active_peers'],
+        units=['active_peers', 'enum_cm'],
         canaries=['active_peers', 'dialing'],
         extra=[validate.history_c09],
         scope='ONE sentence of three: an explicit disconnect removes the peer locally at once (one critical section), closes that connection and appends exactly '
